@@ -167,6 +167,11 @@ Definition decode_dir (bs : bytes) : res (list fval * bytes) :=
   (* p = le16 ll ++ record; Unmarshal(p, d) decodes it as case *Dir *)
   x <- dec_dir (le 2 (fst l) ++ fst b) ;; Ok (fst x, snd b).
 
+(* DecodeDir from a reader that cannot report how much is left (no Len()): the bound check is skipped *)
+Definition decode_dir_stream (bs : bytes) : res (list fval * bytes) :=
+  l <- rd_int 2 bs ;; b <- rd (fst l) (snd l) ;;
+  x <- dec_dir (le 2 (fst l) ++ fst b) ;; Ok (fst x, snd b).
+
 (* ---------------- well-formedness (what the Go types can hold and the wire can carry) ---------------- *)
 Definition wf_bytes (s : bytes) : bool := forallb (fun b => b <? 256) s.
 Definition wf_str (s : bytes) : bool := (len s <? M16) && wf_bytes s.
